@@ -436,7 +436,7 @@ func MarshalJSONIndent(v any, prefix, indent string) (native.JSON, error) {
 	}
 	b, err := json.MarshalIndent(v, prefix, indent)
 	if err != nil {
-		return "", fmt.Errorf("%s", err)
+		return "", replacePrefix(err, "json", "marshalJSONIndent")
 	}
 	return native.JSON(b), nil
 }
